@@ -16,6 +16,7 @@ var generators = map[string]func(*Gen){
 	"C04": genC04,
 	"C05": genC05,
 	"C06": genC06,
+	"C07": genC07,
 	"C08": genC08,
 	"C09": genC09,
 	"C10": genC10,
